@@ -448,6 +448,43 @@ def run_py_writer(model, proto, pyvals, ops):
     return None, None
 
 
+class Poison:
+    """A value no serializer can write: the generated writer's implementation call raises on it."""
+
+
+def run_py_writer_with_failed_call(model, proto, pyvals, ops, fmt="binary"):
+    """ops as for run_py_writer plus ["WP", k] (write step k with a value that makes the *implementation* raise) and
+    ["W?", k] (a write that may be refused).  Returns (status, detail, acknowledged [(k, n_items or None)], bytes):
+    status 'ok' | 'poison_did_not_raise' | 'rejected_later' (a later call was refused: not judged) | 'closed'."""
+    sink = P.SimSink() if fmt == "binary" else io.StringIO()
+    w = model.cls(proto, fmt, "Writer")(sink)
+    meths = model.step_methods(w, "write_")
+    acked = []
+    for i, op in enumerate(ops):
+        try:
+            if op[0] in ("W", "W?"):
+                k = op[1]
+                v = pyvals[k]
+                meths[k](list(v) if proto.steps[k][2] else v)
+                acked.append(k)
+            elif op[0] == "WP":
+                try:
+                    meths[op[1]](Poison())
+                except Exception as e:  # noqa
+                    if type(e).__name__ == "ProtocolError":
+                        return "rejected_later", "poisoned call refused by the state machine", acked, b""
+                    continue
+                return "poison_did_not_raise", "", acked, b""
+            else:
+                w.close()
+        except Exception as e:  # noqa
+            if op[0] == "W?":
+                continue                 # refusing to go back is what the step order demands
+            return "rejected_later", "call #%d %s raised %r" % (i, op, e), acked, b""
+    out = bytes(sink.buf) if fmt == "binary" else sink.getvalue().encode("utf-8")
+    return "closed", "", acked, out
+
+
 def run_py_reader(model, proto, data, ops):
     try:
         r = model.cls(proto, "binary", "Reader")(io.BytesIO(data))
@@ -574,6 +611,44 @@ def model_task(task, ybin, root):
                 if why:
                     viols.append(({"class": "step_order_not_enforced" if (exp is not None and (got is None or got > exp)) else "legal_history_rejected", "api": "python_reader"},
                                   doc(model, proto, task, "python_reader", ops, counts, why)))
+            # a call whose *implementation* fails (a value that cannot be serialized) in the middle of a legal history;
+            # the caller then tries to go back to the stream before it, retries with a good value and completes the
+            # protocol.  Whatever the writer makes of the failed call: if it lets the history run to a successful
+            # close(), the bytes it produced must be a well-formed stream of exactly the acknowledged writes.
+            plain = [k for k, st in enumerate(streams) if not st]
+            for h in range((3 if quick else 10) if plain else 0):
+                hr = pr.fork("failcall", h)
+                k = hr.choice(plain)
+                ops = []
+                for j, st in enumerate(streams):
+                    if j == k:
+                        ops.append(["WP", j])
+                        if j > 0 and streams[j - 1] and hr.chance(0.7):
+                            ops.append(["W?", j - 1])
+                        if hr.chance(0.3):
+                            ops.append(["WP", j])
+                    for _ in range(hr.randint(1, 2) if st else 1):
+                        ops.append(["W", j])
+                ops.append(["C"])
+                status, detail, acked, out = run_py_writer_with_failed_call(model, proto, pyvals, ops)
+                stats["runs"] += 1
+                stats["py_writer_failed_impl_call"] = stats.get("py_writer_failed_impl_call", 0) + 1
+                stats["py_failed_call_" + status] = stats.get("py_failed_call_" + status, 0) + 1
+                if status != "closed":
+                    continue
+                want = [[] if st else None for st in streams]
+                for j in acked:
+                    if streams[j]:
+                        want[j] = want[j] + list(vals[j])
+                    else:
+                        want[j] = vals[j]
+                try:
+                    got, _, _ = codec.decode_stream(proto, ns, out, model.schema(proto))
+                    why = sw.flat_equal(env, ns, proto, sw.flat_values(proto, want), sw.flat_values(proto, got))
+                except (R.Truncated, R.Malformed) as e:
+                    why = "the stream written does not decode: %r" % (e,)
+                if why:
+                    viols.append(({"class": "stream_corrupt_after_failed_call", "api": "python_writer"}, doc(model, proto, task, "python_writer_failed_call", ops, counts, why)))
             # reader on an input that ends early: some call must raise
             for h in range(2 if quick else 8):
                 hr = pr.fork("cut", h)
@@ -676,6 +751,20 @@ def replay_doc(d, ybin, root):
             return bool(why), why
         if api == "python_reader_cut":
             return False, "re-run by the check itself"
+        if api == "python_writer_failed_call":
+            pyvals = P.read_python_values(model, proto, data)
+            status, detail, acked, out = run_py_writer_with_failed_call(model, proto, pyvals, ops)
+            if status != "closed":
+                return False, "history did not run to a successful close: %s %s" % (status, detail)
+            want = [[] if st else None for st in streams]
+            for j in acked:
+                want[j] = (want[j] + list(vals[j])) if streams[j] else vals[j]
+            try:
+                got, _, _ = codec.decode_stream(proto, ns, out, model.schema(proto))
+                why = sw.flat_equal(env, ns, proto, sw.flat_values(proto, want), sw.flat_values(proto, got))
+            except (R.Truncated, R.Malformed) as e:
+                why = "the stream written does not decode: %r" % (e,)
+            return bool(why), why or "stream is well formed"
         cm = C.CppModel(model.dir)
         if api == "cpp_writer":
             exp = cpp_writer_model(streams, ops)
@@ -706,7 +795,7 @@ def main():
                assumptions=["a C++ stream step is left when its end has been observed: a single read returned false or a batch read came back short of its capacity",
                             "python: every step needs at least one write call; a stream's iterable must be drained before the next read; close() ends a trailing stream"],
                replay_fn=replay_doc, quick_budget=140,
-               fault_keys=("py_reader_early_eof", "cpp_reader_early_eof", "mut_swap", "mut_drop", "mut_dup", "mut_retarget", "mut_early_close", "mut_insert", "mut_back", "mut_guided", "mut_none"))
+               fault_keys=("py_reader_early_eof", "py_writer_failed_impl_call", "cpp_reader_early_eof", "mut_swap", "mut_drop", "mut_dup", "mut_retarget", "mut_early_close", "mut_insert", "mut_back", "mut_guided", "mut_none"))
 
 
 if __name__ == "__main__":
